@@ -66,20 +66,44 @@ fn info(id: &Id, pl: u64) -> NodeInfo {
 }
 fn nodes_obs(v: Vec<NodeInfo>) -> Obs { Obs::Nodes(v.into_iter().map(|n| (*n.id.as_bytes(), pl_of(&n.address))).collect()) }
 
-fn coq_node(n: &(Id, u64)) -> String { format!("nd {} {}", n_of_be(&n.0), n.1) }
-fn coq_op(o: &Op) -> String {
-    match o {
-        Op::Join(l) => format!("Join {}", coq_list(l.iter().map(coq_node))),
-        Op::Add(id, pl, gate) => format!("Add (nd {} {}) {}", n_of_be(id), pl, coq_bool(*gate)),
-        Op::Fail(id) => format!("Fail {}", n_of_be(id)),
-        Op::Evict(id) => format!("Evict {}", n_of_be(id)),
-        Op::Find(k, c) => format!("Find {} {}", n_of_be(k), c),
-        Op::ReqFindNode(k, c) => format!("ReqFindNode {} {}", n_of_be(k), c),
-        Op::ReqFindValue(k) => format!("ReqFindValue {}", n_of_be(k)),
+/// 256-bit constants are expensive for coqc to parse (5-20 ms each), and the same id occurs
+/// many times in a history: every case binds each distinct id once (`let k7 := 0x.. in`) and
+/// refers to it by name.
+/// the N value of a big-endian byte string written with the constructors of `positive`
+/// (coqc parses this about four times faster than a 64-digit hexadecimal numeral)
+fn n_ctor(id: &Id) -> String {
+    let mut bits: Vec<bool> = vec![];
+    for b in id.iter() { for i in (0..8).rev() { bits.push((b >> i) & 1 == 1); } }
+    let Some(first) = bits.iter().position(|b| *b) else { return "N0".into() };
+    let mut t = String::from("xH");
+    for b in &bits[first + 1..] { t = format!("({} {})", if *b { "xI" } else { "xO" }, t); }
+    format!("(Npos {})", t)
+}
+#[derive(Default)]
+struct Names { idx: std::collections::HashMap<Id, usize>, defs: Vec<String> }
+impl Names {
+    fn n(&mut self, id: &Id) -> String {
+        if let Some(i) = self.idx.get(id) { return format!("k{}", i); }
+        let i = self.defs.len();
+        self.idx.insert(*id, i);
+        self.defs.push(format!("let k{} := {} in", i, n_ctor(id)));
+        format!("k{}", i)
     }
 }
-fn coq_obs(o: &Obs) -> String {
-    match o { Obs::Ok => "OOk".into(), Obs::Err => "OErr".into(), Obs::Nodes(l) => format!("ONodes {}", coq_list(l.iter().map(coq_node))) }
+fn coq_node(nm: &mut Names, n: &(Id, u64)) -> String { format!("nd {} {}", nm.n(&n.0), n.1) }
+fn coq_op(nm: &mut Names, o: &Op) -> String {
+    match o {
+        Op::Join(l) => format!("Join {}", coq_list(l.iter().map(|x| coq_node(nm, x)).collect::<Vec<_>>())),
+        Op::Add(id, pl, gate) => format!("Add (nd {} {}) {}", nm.n(id), pl, coq_bool(*gate)),
+        Op::Fail(id) => format!("Fail {}", nm.n(id)),
+        Op::Evict(id) => format!("Evict {}", nm.n(id)),
+        Op::Find(k, c) => format!("Find {} {}", nm.n(k), c),
+        Op::ReqFindNode(k, c) => format!("ReqFindNode {} {}", nm.n(k), c),
+        Op::ReqFindValue(k) => format!("ReqFindValue {}", nm.n(k)),
+    }
+}
+fn coq_obs(nm: &mut Names, o: &Obs) -> String {
+    match o { Obs::Ok => "OOk".into(), Obs::Err => "OErr".into(), Obs::Nodes(l) => format!("ONodes {}", coq_list(l.iter().map(|x| coq_node(nm, x)).collect::<Vec<_>>())) }
 }
 fn hx(id: &Id) -> String { hex::encode(id) }
 fn json_node(n: &(Id, u64)) -> serde_json::Value { json!([hx(&n.0), n.1]) }
@@ -147,7 +171,7 @@ impl Driver {
     }
 }
 
-const BOUNDARY_BUCKETS: [usize; 16] = [0, 1, 2, 3, 4, 7, 8, 9, 127, 128, 200, 250, 251, 252, 253, 254];
+const BOUNDARY_BUCKETS: [usize; 16] = [0, 1, 2, 3, 4, 7, 8, 9, 127, 128, 250, 251, 252, 253, 254, 255];
 const COUNTS: [u64; 20] = [0, 1, 2, 3, 4, 5, 7, 8, 9, 12, 15, 16, 17, 19, 20, 21, 32, 63, 64, 40];
 
 fn pick_key(rng: &mut Rng, local: &Id, hot: &[usize], pool: &[Id]) -> (Id, &'static str) {
@@ -198,8 +222,25 @@ async fn gen_case(rng: &mut Rng, sum: &mut Summary, thorough: bool) -> (Id, Vec<
         for _ in 0..want { let id = id_in_bucket(&local, b, &low_pattern(rng)); if !pool.contains(&id) { pool.push(id); } }
     }
     for _ in 0..rng.below(4) { let id = rand_id(rng); if id != local { pool.push(id); } }
+    // a small per-case key set (each key is then asked with several counts; also keeps the number of
+    // distinct 256-bit literals per case low)
+    let case_keys: Vec<(Id, &'static str)> = (0..10).map(|_| pick_key(rng, &local, &hot, &pool)).collect();
     let mut d = Driver { eng, strict, ops: vec![], obs: vec![], listed: vec![] };
     let mut next_pl: u64 = 1;
+    // fill phase (half of the cases): drive some populated buckets to capacity-1 / capacity / capacity+1 attempts
+    if rng.chance(1, 2) {
+        for &b in &hot {
+            if rng.chance(1, 3) { continue; }
+            let members: Vec<Id> = pool.iter().filter(|id| bucket_of(&local, id) == b).cloned().collect();
+            let n = (*rng.pick(&[6usize, 7, 8, 9, 10])).min(members.len());
+            if rng.chance(1, 4) {
+                let l: Vec<(Id, u64)> = members[..n].iter().map(|id| { next_pl += 1; (*id, next_pl - 1) }).collect();
+                d.apply(Op::Join(l), sum).await;
+            } else {
+                for id in &members[..n] { let pl = next_pl; next_pl += 1; let g = !d.strict; d.apply(Op::Add(*id, pl, g), sum).await; }
+            }
+        }
+    }
     let nops = match rng.below(10) { 0 => rng.range(1, 8), 1..=5 => rng.range(10, 60), 6..=8 => rng.range(60, 160), _ => 300 } as usize;
     let kind = if strict { "strict-engine" } else if nops >= 300 { "long-history" } else { "history" };
     for _ in 0..nops {
@@ -225,14 +266,14 @@ async fn gen_case(rng: &mut Rng, sum: &mut Summary, thorough: bool) -> (Id, Vec<
         } else if r < 75 {
             Op::Evict(match rng.below(8) { 0 => local, 1 | 2 => *rng.pick(&pool), _ if !d.listed.is_empty() => *rng.pick(&d.listed), _ => *rng.pick(&pool) })
         } else if r < 92 {
-            let (k, tag) = pick_key(rng, &local, &hot, &pool); sum.count(tag);
+            let (k, tag) = if rng.chance(9, 10) { *rng.pick(&case_keys) } else { pick_key(rng, &local, &hot, &pool) }; sum.count(tag);
             Op::Find(k, pick_count(rng, d.listed.len() as u64))
         } else if r < 97 {
-            let (k, tag) = pick_key(rng, &local, &hot, &pool); sum.count(tag);
+            let (k, tag) = if rng.chance(9, 10) { *rng.pick(&case_keys) } else { pick_key(rng, &local, &hot, &pool) }; sum.count(tag);
             let c = match rng.below(8) { 0 => 19, 1 => 20, 2 => 21, 3 => u64::MAX, 4 => 0, 5 => 1000, _ => pick_count(rng, d.listed.len() as u64) };
             Op::ReqFindNode(k, c)
         } else {
-            let (k, tag) = pick_key(rng, &local, &hot, &pool); sum.count(tag);
+            let (k, tag) = if rng.chance(9, 10) { *rng.pick(&case_keys) } else { pick_key(rng, &local, &hot, &pool) }; sum.count(tag);
             Op::ReqFindValue(k)
         };
         d.apply(op, sum).await;
@@ -241,22 +282,24 @@ async fn gen_case(rng: &mut Rng, sum: &mut Summary, thorough: bool) -> (Id, Vec<
     let size = d.listed.len() as u64;
     let nq = if thorough { 6 } else { 8 };
     for _ in 0..nq {
-        let (k, tag) = pick_key(rng, &local, &hot, &pool); sum.count(tag);
+        let (k, tag) = if rng.chance(9, 10) { *rng.pick(&case_keys) } else { pick_key(rng, &local, &hot, &pool) }; sum.count(tag);
         d.apply(Op::Find(k, pick_count(rng, size)), sum).await;
     }
-    let (k, _) = pick_key(rng, &local, &hot, &pool);
+    let (k, _) = *rng.pick(&case_keys);
     d.apply(Op::ReqFindNode(k, *rng.pick(&[19u64, 20, 21, 64])), sum).await;
     d.apply(Op::ReqFindValue(k), sum).await;
     if thorough {
         // every count 0..=64 for two keys on the final table
         for _ in 0..2 {
-            let (k, tag) = pick_key(rng, &local, &hot, &pool); sum.count(tag);
+            let (k, tag) = if rng.chance(9, 10) { *rng.pick(&case_keys) } else { pick_key(rng, &local, &hot, &pool) }; sum.count(tag);
             for c in 0..=64u64 { d.apply(Op::Find(k, c), sum).await; }
         }
     }
-    // bucket fill distribution of the final table (from the shadow; evidence only)
+    // bucket fill distribution of the final table (a full dump of the real table; evidence only, not a case op)
     let mut fill = [0usize; 256];
-    for id in &d.listed { fill[bucket_of(&local, id)] += 1; }
+    let dump = d.eng.find_nodes(&DhtKey::from_bytes(local), 4096).await.unwrap_or_default();
+    let dump_ids: BTreeSet<Id> = dump.iter().map(|n| *n.id.as_bytes()).collect();
+    for id in &dump_ids { fill[bucket_of(&local, id)] += 1; }
     for f in fill.iter().filter(|f| **f > 0) {
         sum.count(match *f { 0..=6 => "bucket_fill:1-6", 7 => "bucket_fill:7", 8 => "bucket_fill:8(full)", _ => "bucket_fill:>8(!)" });
     }
@@ -272,12 +315,16 @@ fn main() {
     sum.rule = "one evaluation = one (table, key, count) query answered by the real DhtCoreEngine (find_nodes, or a FindNode/FindValue request) and compared, order and addresses included, with Model/Routing.v after the same history; histories of join_network/add_node/handle_node_failure/evict_node (up to 300 ops) over ids crafted per bucket (local XOR pattern; buckets filled to 7/8/9 attempts; last-byte-only differences), with re-added listed ids, the local id, removal of absent ids; keys: local, 0, 2^256-1, listed ids, neighbours of listed ids, keys whose target bucket is within 3 of a populated bucket, random; counts 0..64 with table size -1/0/+1, 19/20/21 and usize::MAX for requests. Non-trivial = the table holds at least one node at the time of the query; distinct = different (set of listed ids, key, count)".into();
     let per_shard = if args.thorough() { 12 } else { 8 };
     let mut w = CaseWriter::new(&args.out, "cases_c02", HEADER, "case3", "check_case", "prop_case", per_shard);
-    let ncases: u64 = args.extra.get("cases").and_then(|s| s.parse().ok()).unwrap_or(if args.thorough() { 420 } else { 110 });
+    let ncases: u64 = args.extra.get("cases").and_then(|s| s.parse().ok()).unwrap_or(if args.thorough() { 420 } else { 90 });
     let mut seen: HashSet<u64> = HashSet::new();
     for id in 0..ncases {
         let mut r2 = rng.fork();
         let (local, ops, obs, kind) = rt.block_on(gen_case(&mut r2, &mut sum, args.thorough()));
-        let term = format!("({}, {}, {})", n_of_be(&local), coq_list(ops.iter().map(coq_op)), coq_list(obs.iter().map(coq_obs)));
+        let mut nm = Names::default();
+        let body = format!("({}, {}, {})", nm.n(&local),
+            coq_list(ops.iter().map(|o| coq_op(&mut nm, o)).collect::<Vec<_>>()),
+            coq_list(obs.iter().map(|o| coq_obs(&mut nm, o)).collect::<Vec<_>>()));
+        let term = format!("({}\n  {})", nm.defs.join(" "), body);
         w.push(id, term);
         sum.count(&format!("kind:{}", kind));
         sum.add("ops_total", ops.len() as u64);
